@@ -267,10 +267,10 @@ theorem assert_positions (h : Hint) (v : V) (s : St) :
 /-! ## `match` arms and typed `catch`: a mismatch selects the next alternative -/
 
 /-- **match_hint_falls_through.** A typed pattern — named `x: T` or wildcard `_: T` (`x = none`) —
-whose check fails answers "no" instead of raising (a named one has already received the value). -/
+whose check fails answers "no" instead of raising, and leaves the variable untouched. -/
 theorem match_hint_falls_through (k : Nat) (v : V) (x : Option Var) (h : Hint) (s : St)
     (hc : check h.name h.opt v = false) :
-    patM (k + 1) (.b x (some h)) v s = (.no, s.setOpt x v) := by
+    patM (k + 1) (.b x (some h)) v s = (.no, s) := by
   simp [patM, hc]
 
 theorem match_hint_selects (k : Nat) (v : V) (x : Option Var) (h : Hint) (s : St)
@@ -463,7 +463,7 @@ def demo : Prog :=
           (.matchE [.call (.lit (.fn 0)) [.var 0, .lit (.tuple [.int 1, .str [97]])]]
             [.mk [[.b (some 1) (some ⟨kindName .number, false⟩)]] none (.lit (.int 0)),
              .mk [[.b none (some ⟨kindName .bool, false⟩)], [.b none (some ⟨kindName .str, false⟩)]]
-                 (some (.lt (.var 0) (.var 3))) (.var 1)])) }
+                 (some (.lt (.var 0) (.var 3))) (.typeOf (.var 0))])) }
 
 example : (run true demo 20).1 = .ok (.str (kindName .number)) ∧ (run true demo 20).2.fails = 0 ∧
     (run true demo 20).2.trace = [.null, .int 1] := ⟨rfl, rfl, rfl⟩
